@@ -403,6 +403,10 @@ impl<'a> Interpreter<'a> {
                                             callable: self.callable_by_name(ident.as_str())?,
                                             value: obj,
                                         });
+                                    } else if obj.is_err() {
+                                        // a failed operand stays the failure it is, as for
+                                        // every other operator; it is not a missing field
+                                        stack.push_val(obj);
                                     } else {
                                         stack.push(
                                             CelValue::from_err(CelError::attribute(
